@@ -38,6 +38,7 @@ def concretise(sc: Dict[str, Any], tmp: Path, h: int) -> Tuple[List[str], Dict[s
     nodes: List[Dict[str, Any]] = [
         {"processor": "FloatValueDataSource"},                      # value: required context key
         {"processor": "VTouchOperation"},                           # execution witness
+        {"processor": "VInterruptOperation"},                       # raises KeyboardInterrupt when trigger > 0
         {"processor": "FloatMultiplyOperation"},                    # factor: required context key
         {"processor": "FloatTxtFileSaver", "parameters": {"path": str(out_txt)}},
     ]
@@ -49,15 +50,20 @@ def concretise(sc: Dict[str, Any], tmp: Path, h: int) -> Tuple[List[str], Dict[s
         doc["trace"] = {"driver": "jsonl", "output_path": str(tmp / "trace"), "options": {"detail": ["hash", "all"][h % 2]}}
     if sc["runSpace"] == "ok":
         factors: List[Any] = [float(i + 2) for i in range(planned)]
-        if fail_at:
+        triggers = [0.0] * planned
+        if fail_at and sc.get("failKind") == "interrupt":
+            triggers[fail_at - 1] = 1.0
+        elif fail_at:
             factors[fail_at - 1] = "bad"
         rs: Dict[str, Any] = {"combine": "combinatorial", "max_runs": 100,
-                              "blocks": [{"mode": "by_position", "context": {"factor": factors}}]}
+                              "blocks": [{"mode": "by_position", "context": {"factor": factors, "trigger": triggers}}]}
         if h % 3 == 0:
             rs["dry_run"] = False          # the documented form spells the defaults out
         doc["run_space"] = rs
     else:
-        ctx["factor"] = "bad" if fail_at else "2.0"
+        ctx["factor"] = "bad" if (fail_at and sc.get("failKind") != "interrupt") else "2.0"
+        if fail_at and sc.get("failKind") == "interrupt":
+            ctx["trigger"] = "1.0"
     text: Optional[str] = None
     if d == "usage":
         argv = [["run"], ["run", str(tmp / "p.yaml"), "--no-such-flag"], []][h % 3]
@@ -80,7 +86,7 @@ def concretise(sc: Dict[str, Any], tmp: Path, h: int) -> Tuple[List[str], Dict[s
     elif d == "validation_fails":
         k = h % 4
         if k == 0:
-            nodes[2]["parameters"] = {"bogus": 1.0}
+            nodes[3]["parameters"] = {"bogus": 1.0}
         elif k == 1:
             nodes.insert(1, {"processor": "FloatCollectionSumOperation"})
         elif k == 2:
@@ -225,15 +231,17 @@ def replay_one(payload):
     return 1 if r["viol"] else 0
 
 
-def tlc_check(run: core.Run) -> None:
-    res = tlc.run_tlc("Cli", "Cli.check", coverage=True, timeout=900)
+def tlc_check(run: core.Run, tier: str = "quick") -> None:
+    cfg = "Cli.check" if tier == "quick" else "Cli.check5"
+    res = tlc.run_tlc("Cli", cfg, coverage=True, timeout=1800)
     run.add_tlc(res)
-    run.require_tlc_ok(res, "Cli.check")
+    run.require_tlc_ok(res, cfg)
+    run.constants = {"MaxRuns": 3 if tier == "quick" else 5}
     run.require_actions(["CheckGate", "ValidateFlag", "RsDryRun", "DryRun", "LaunchStart", "RunOk", "RunFails", "RunsDone", "LaunchEnd"])
 
 
-def emitted_cases() -> List[Dict[str, Any]]:
-    res = tlc.run_tlc("Cli", "Cli.emit", workers=1, parse_emitted=True, timeout=900)
+def emitted_cases(tier: str = "quick") -> List[Dict[str, Any]]:
+    res = tlc.run_tlc("Cli", "Cli.emit" if tier == "quick" else "Cli.emit5", workers=1, parse_emitted=True, timeout=1800)
     if not res.emitted:
         raise core.MachineryError("Cli.emit produced no cases")
     return res.emitted
@@ -249,9 +257,9 @@ def check(tier: str) -> int:
                 "run through semantiva.cli.main; non-trivial = invocations that must not execute anything")
     run.assumptions = ["execution is witnessed by a call-logging processor placed before the failing node and by the sink file",
                        "--validate returns before run-space expansion (modelled as the code behaves: ValidateSkipsRunSpaceExpansion)",
-                       "interrupt (exit 5) is not exercised"]
-    tlc_check(run)
-    cases = emitted_cases()
+                       "an operator interrupt is modelled by a node raising KeyboardInterrupt (exit 5)"]
+    tlc_check(run, tier)
+    cases = emitted_cases(tier)
     for r in pmap(replay_chunk, cases, chunk=25, tasks_per_child=3):
         run.evaluations += r["n"]
         run.nontrivial += r["rejecting"]
